@@ -181,6 +181,17 @@ func c03Case(c *mon.Ctx, idx int, r *mon.Rand) {
 			}
 		}
 		mult := int64(rounds)
+		// the slice handed to Histogram() must be left as it was
+		switch a := arg.(type) {
+		case tally.ValueBuckets:
+			if !sameBitsV([]float64(a), effV) && form == "given" {
+				c.Violation("caller-slice-modified/"+kind, map[string]interface{}{"why": fmt.Sprintf("Histogram() changed the caller's bucket slice: now %v", a), "spec": desc})
+			}
+		case tally.DurationBuckets:
+			if fmt.Sprint([]time.Duration(a)) != fmt.Sprint(effD) && form == "given" {
+				c.Violation("caller-slice-modified/"+kind, map[string]interface{}{"why": fmt.Sprintf("Histogram() changed the caller's bucket slice: now %v", a), "spec": desc})
+			}
+		}
 
 		var gotV = map[float64]int64{}
 		var gotD = map[time.Duration]int64{}
